@@ -12,6 +12,14 @@ every item exactly once is property C17's theorem and is assumed here.  Every `P
 owned by exactly one thread or queue at any time, so local computations commute with the
 other threads' steps).  The scheduler is an arbitrary choice among enabled threads.
 
+Memory: the model moves values, not addresses.  The one place where the C++ depends on addresses
+staying put is `InputBuffer`: every `Line` holds a `StringPiece` into its own `std::string`
+(small strings live inside the object), so `lines_` must never reallocate; `Controller` guarantees
+it by `Reserve(batch_size)` per batch and by sending a batch as soon as it holds `batch_size` lines.
+The model-side half is `KV.C12.batch_never_exceeds_reserve` (a batch receives at most `batch_size`
+lines before `FlushInput`); the reservation itself is checked on the real tool by the
+large-batch / short-lines class of checks/C12.py.
+
 `Variant` selects the code the model mirrors: `Variant.fixed` is the tree with the two repairs
 in thread.hh / format.hh (repo_patches/1x-fix-filter-*.patch), `Variant.old` is the code before
 them (kept so that the negation theorems of `Properties/C12.lean`, section `Old`, stay
